@@ -273,6 +273,7 @@ def construct_models_in_parallel(sample, chr_id, dump_filename, args, read_group
     # known isoforms already reported are tracked within one chromosome of one experiment only:
     # the class-level set must not carry over to the next chromosome / experiment handled by this process
     GraphBasedModelConstructor.detected_known_isoforms.clear()
+    GraphBasedModelConstructor.reported_novel_chains.clear()
     aggregator = ReadAssignmentAggregator(args, sample, read_groups, gffutils_db, chr_id)
 
     transcript_stat_counter = EnumStats()
